@@ -143,7 +143,7 @@ def native_replay(ws, g, inputs, outdir):
                 fh.write("%s=%d\n" % (k, v))
     try:
         q = subprocess.run([exe, inp], capture_output=True, text=True, timeout=60, errors="replace",
-                           env=dict(os.environ, ASAN_OPTIONS="detect_leaks=0"))
+                           env=dict(os.environ, ASAN_OPTIONS="detect_leaks=0:detect_odr_violation=0"))
     except subprocess.TimeoutExpired:
         return {"built": True, "ran": False, "error": "native replay timed out (possible hang)", "reproduced": True}
     out = (q.stdout + "\n" + q.stderr)[-4000:]
